@@ -313,15 +313,65 @@ def _gen_traces(ntraces_per_w, nev):
     return traces
 
 
+HEAP_GRAPH = {   # complete state graph of BitsHeap: (NVars, Ws, WMax, INeg, IPos, Ops, IOps)
+    "quick": (2, (1,), 1, 1, 2, L.ALL_OPS, ("add", "eq", "lt", "rshift")),
+    "thorough": (2, (1, 2), 2, 1, 4, L.ALL_OPS, ("add", "sub", "eq", "lt", "ge", "rshift")),
+}
+HEAP_SIM = [     # `-simulate` configurations: all operators / mutator-heavy
+    (3, (1, 2, 3), 4, 1, 5, L.ALL_OPS, ("add", "sub", "eq", "ne", "lt", "ge", "rshift", "and")),
+    (3, (1, 2, 3), 4, 1, 3, ("eq", "lt", "add"), ("eq",),
+     ("new", "bin", "binint", "assign", "nbassign", "flip", "setbit", "setslice", "getslice")),
+    (4, (1, 2), 3, 1, 3, ("eq", "ne", "le", "gt", "and", "sub"), ("ne", "ge"),
+     ("new", "newfrom", "un", "bin", "binint", "getbit", "concat", "ext", "assign", "nbassign", "flip", "setbit")),
+]
+
+
 def run(res, tier):
     quick = tier == "quick"
     W = 4 if quick else 5
     with common.scratch() as sd, L.new_pool() as pool:
+        hg = pool.submit(L.heap_graph_tlc, HEAP_GRAPH[tier], sd, tier)
+        hs = [pool.submit(L.heap_sim_tlc, c, 150 if quick else 1500, 40 if quick else 60, common.seed() + k)
+              for k, c in enumerate(HEAP_SIM)]
         bv = L.bv_selfcheck_submit(tier, pool)
         jobs = [("bin_bi", W, W, 0), ("bin_bb", 1, W, 0), ("bin_bi", 1, W - 1, 0), ("bin_bx", 1, 4, 4),
                 ("un", 1, W + 1, 0), ("hash", 1, 4, 4), ("new", 1, W, W), ("assign", 1, W, W), ("nbassign", 1, W, W)]
         tf = L.tables(jobs, sd, pool)
 
+        # 3a. several live objects: results of earlier calls are modified in place, operands re-evaluated
+        htraces = _gen_heap_traces(3 if quick else 40, 40 if quick else 50)
+        k = next(i for i, e in enumerate(htraces[5]["ev"]) if e.get("rid") and e["op"] in CMP_OPS)
+        res.sample({"kind": "impl trace event (heap)", **{f: htraces[5]["ev"][k][f] for f in ("op", "args", "out", "rid")},
+                    "objects_after": [L.show(x) for x in htraces[5]["ev"][k]["heap"]]})
+        hfound = L.validate(res, htraces, pool, sd, label="heap-trace", max_per_trace=2,
+                            need_actions=("BinEv", "UnaryEv", "ReadEv", "HelperEv", "NewEv", "AssignEv", "SetEv"))
+        hbad = {f[0] for f in hfound}
+        try:
+            L.heap_canaries(res, [t for i, t in enumerate(htraces) if i not in hbad], pool, sd)
+        except common.MachineryError:
+            if len(hbad) < len(htraces) // 2:
+                raise
+            res.note("heap_canaries", "skipped: most heap traces were rejected, nothing accepted to corrupt")
+        hops = {}
+        for t in htraces:
+            for e in t["ev"]:
+                kk = "%s:%s:%s" % (e["op"], e["out"]["k"], "kept" if e.get("rid") else "tgt" if "tgt" in e else "dropped")
+                hops[kk] = hops.get(kk, 0) + 1
+                res.distinct(("heap", e["op"], e["out"]["k"], bool(e.get("rid")), len(e["heap"]), e["heap"][0]["w"],
+                              tuple(a.get("k") if isinstance(a, dict) else "i" for a in e["args"])))
+        for op in L.BITS_RESULT - {"reduce_and", "reduce_or", "reduce_xor"}:
+            if not hops.get(op + ":ok:kept"):
+                raise common.MachineryError("no result of %s was kept as a live object in the heap traces" % op)
+        for op in ("assign", "nbassign", "flip", "setbit", "setslice"):
+            if not hops.get(op + ":unit:tgt"):
+                raise common.MachineryError("mutator %s never applied in the heap traces" % op)
+        nmut = sum(1 for t in htraces for e in t["ev"] if e.get("tgt", 1) != 1 and e["out"]["k"] == "unit")
+        if nmut < 50:
+            raise common.MachineryError("only %d in-place modifications of RESULT objects in the heap traces" % nmut)
+        res.note("heap_trace_calls", hops)
+        res.note("heap_trace_inplace_modifications_of_results", nmut)
+
+        # 3b. one tracked object, every operator with literal operands
         traces = _gen_traces(10 if quick else 150, 40 if quick else 50)
         res.sample({"kind": "impl trace event", **{k: traces[7]["ev"][3][k] for k in ("op", "refl", "args", "out")}})
         found = L.validate(res, traces, pool, sd, need_actions=("BinEv", "DivModEv", "UnaryEv", "NewEv", "AssignEv"))
@@ -339,6 +389,10 @@ def run(res, tier):
                 raise common.MachineryError("operator %s never exercised by the random traces" % op)
         res.note("trace_calls_by_op_and_outcome", ops)
 
+        # 2b. object identity, spec -> code
+        L.heap_walk(res, hg.result())
+        L.heap_simulate(res, hs)
+
         L.graph_walk(res, (1, 2) if quick else (1, 2, 3), (1, 2, 3) if quick else (1, 2, 3, 4), 6 if quick else 10,
                      ("new", "assign", "nbassign", "flip"), sd)
 
@@ -353,11 +407,16 @@ def run(res, tier):
     res.cov["exhaustive"] = True
     res.note("widths_sampled", L.WIDTHS)
     res.note("rule", "spec->code: TLC enumerates every (operator, width<=%d, operands) row of BitsTable and every "
-             "transition of the BitsObj state graph; each is executed on the real API. code->spec: seeded random "
-             "operation sequences at 21 widths up to 1023 bits, operands biased to 0, 1, 2^(w-1)+-1, 2^w-1, limb and "
-             "word edges, out-of-range ints, other-width operands; a case is one logged call (op, operand "
-             "encodings, outcome)" % W)
+             "transition of the BitsObj state graph, each executed on the real API; the complete state graph of "
+             "BitsHeap (%d variables, widths %s) is covered by one walk on real objects that are the very results of "
+             "the real calls, plus -simulate behaviours of larger heaps. code->spec: seeded random operation "
+             "sequences at 21 widths up to 1023 bits, operands biased to 0, 1, 2^(w-1)+-1, 2^w-1, limb and word "
+             "edges, out-of-range ints, other-width operands; sequences over up to %d live objects in which results "
+             "of earlier calls are modified in place and used as operands. A case is one logged call (op, operand "
+             "encodings, outcome, which objects are live)" % (W, HEAP_GRAPH[tier][0], list(HEAP_GRAPH[tier][1]), NVARS))
     res.assume("the exception class of a required error is not constrained")
     res.assume("// and % by zero, reflected shifts (int << Bits, int >> Bits): any outcome admitted")
     res.assume("shift amount of another width (Bits of a different width or an int >= 2^w): error or left-width result")
     res.assume("widths above %d are sampled (21 widths up to 1023), not enumerated" % W)
+    res.assume("every operation returning a Bits value must return a new object (Bits is mutable in place); "
+               "`x op= y` is the pure operator followed by rebinding, as Bits defines no in-place arithmetic")
